@@ -112,6 +112,17 @@ def iterBackLoop : Tree K V → K → V → Tree K V → K × V × Tree K V
   | l, k, v, nil => (k, v, l)
   | l, k, v, node rl rk rv rr => iterBackLoop (node l k v rl) rk rv rr
 
+/-- `drop_tree` (the teardown used by `clear`, `Drop for SplayTree` and `Drop for IntoIter`): the loop
+    keeps ONE tree as its whole state; each round rotates left children up until the root has none
+    (`iterNextLoop`, the same loop as `IntoIter::next`) and frees that root.  Returns the entries in the
+    order in which their nodes are freed.  `fuel` = number of nodes. -/
+def dropAll : Nat → Tree K V → List (K × V)
+  | 0, _ => []
+  | _ + 1, nil => []
+  | fuel + 1, node l k v r =>
+    let res := iterNextLoop l k v r
+    (res.1, res.2.1) :: dropAll fuel res.2.2
+
 end Tree
 
 /-- `SplayTree<K, V, C>` -/
